@@ -34,7 +34,7 @@ func failEnvs(c *Ctx, n int) []rt.Env {
 
 func c12(c *Ctx) {
 	c.Rep.TieObs = []string{"O-render with fault plans: returned error class and the Write-call log of the destination"}
-	c.Rep.Rule = "generated call graphs with failing sites (dynamic expressions returning an error, helpers given unsupported values, nested templates and children blocks containing such sites) x environments choosing which expressions fail x writer plans (every Write call failing or short); oracle on the real program: a failing site => non-nil error of the right cause and an empty Write log (the final write excepted), nil error => exactly the complete document; distinct = distinct (template, environment, plan); non-trivial = a site failed or a writer plan was active"
+	c.Rep.Rule = "generated call graphs with failing sites (dynamic expressions returning an error, helpers given unsupported values, nested templates and children blocks containing such sites) x environments choosing which expressions fail x writer plans (every Write call failing or short; a destination that also has a Flush() error method); oracle on the real program: a failing site => non-nil error of the right cause and an empty Write log (the final write excepted), nil error => exactly the complete document; distinct = distinct (template, environment, plan); non-trivial = a site failed or a writer plan was active"
 	o := gen.Opts{ObjRefs: true, ClassExprs: true, AttributesCmd: true, NonASCII: false, MaxDepth: 3, FailSites: true, RenderHeavy: true}
 	var cases []*RenderCase
 	for i := 0; i < c.N(2, 30); i++ {
@@ -55,6 +55,10 @@ func c12(c *Ctx) {
 		for _, n := range rc.Names {
 			for e := range rc.Envs {
 				rc.Jobs = append(rc.Jobs, rt.Job{Name: n, Env: e})
+				if e%3 == 1 {
+					// the destination is "any io.Writer": one that can also be flushed (bufio.Writer, gzip.Writer)
+					rc.Jobs = append(rc.Jobs, rt.Job{Name: n, Env: e, Flush: true})
+				}
 				if e%3 == 0 {
 					rc.Jobs = append(rc.Jobs, rt.Job{Name: n, Env: e, Plan: rt.Plan{FailAt: 1}})
 					rc.Jobs = append(rc.Jobs, rt.Job{Name: n, Env: e, Plan: rt.Plan{ShortAt: 1}})
@@ -244,7 +248,7 @@ func c13(c *Ctx) {
 					isem <- struct{}{}
 					defer func() { <-isem }()
 					// the process gets this one environment only
-					r1, err1 := b.Run([]rt.Env{s.rc.Envs[j.Env]}, []rt.Job{{Name: j.Name, Env: 0}}, 60*time.Second)
+					r1, err1 := b.Run([]rt.Env{s.rc.Envs[j.Env]}, []rt.Job{{Name: j.Name, Env: 0}}, 150*time.Second)
 					imu.Lock()
 					defer imu.Unlock()
 					if err1 == nil && len(r1) == 1 {
@@ -301,9 +305,13 @@ func c13(c *Ctx) {
 			}
 			got := realBytes(r)
 			// the property itself: this render against the same render alone in a fresh process (real code both times)
-			if ir, ok := isos[si][fmt.Sprintf("%s/%d", j.Name, j.Env)]; ok {
+			if ir, ok := isos[si][fmt.Sprintf("%s/%d", j.Name, j.Env)]; ok && strings.HasPrefix(ir.Panic, "isolated run failed") {
+				// the reference itself could not be produced (the largest documents, under the race detector, can
+				// exceed the time limit of a single process): nothing to compare this render with
+				c.dist("isolated-reference.unavailable")
+			} else if ok {
 				if ir.Err != r.Err || ir.Panic != r.Panic || realBytes(ir) != got {
-					c.fail("C13/"+mode+"/differs-from-own-isolated-run", fmt.Sprintf("render #%d of the %s run (template %s): err=%q bytes %q; alone in a fresh process: err=%q bytes %q", ji, mode, j.Name, r.Err, clip(got, 100), ir.Err, clip(realBytes(ir), 100)),
+					c.fail("C13/"+mode+"/differs-from-own-isolated-run", fmt.Sprintf("render #%d of the %s run (template %s): err=%q %s bytes %q; alone in a fresh process: err=%q %s bytes %q", ji, mode, j.Name, r.Err, clip(r.Panic, 160), clip(got, 100), ir.Err, clip(ir.Panic, 160), clip(realBytes(ir), 100)),
 						map[string]any{"template": templateSrc(rc.Src, j.Name), "file_hex": hx([]byte(rc.Src)), "position": ji, "env": rc.Envs[j.Env], "mode": mode})
 				}
 			}
